@@ -112,15 +112,27 @@ func judge(res *vlib.Result, w *world, cfg *config, nm []names) {
 	res.Count("filter_calls", w.filterCalls)
 	for _, ms := range w.order {
 		n := nm[0]
-		if cfg.Mode == "router" {
+		if cfg.Mode == "router" && ms.plan.Handler >= 0 {
 			n = nm[ms.plan.Handler]
+		}
+		direct := ms.plan.Handler < 0 // dispatched into the shared wrapped function without a Router context
+		if direct {
+			n = names{}
+			res.Count("messages_dispatched_directly_into_shared_func", 1)
 		}
 		res.Count("messages", 1)
 		if ms.plan.PreKeys > 0 {
 			res.Count("messages_with_preexisting_poison_keys", 1)
 		}
+		if len(ms.plan.Ctx) > 0 {
+			res.Count("messages_with_foreign_ctx_values", 1)
+			for _, inj := range ms.plan.Ctx {
+				res.Count("ctx_injections_"+inj.Place, 1)
+				res.Count("ctx_pairs", len(inj.Pairs))
+			}
+		}
 		// router mode: the externally visible outcome (settlement, invariant) is judged first
-		if cfg.Mode == "router" {
+		if cfg.Mode == "router" && !direct {
 			judgeSettlement(res, cfg, ms)
 		}
 		for _, a := range ms.attempts {
@@ -140,11 +152,46 @@ func judge(res *vlib.Result, w *world, cfg *config, nm []names) {
 			res.Count("redeliveries", len(ms.attempts)-1)
 		}
 	}
+	if cfg.Reg == regShared {
+		countSharedOrigins(res, w)
+	}
+}
+
+// countSharedOrigins reports how many messages were poisoned through the one shared wrapped function and
+// how many of them were consumed somewhere else than the first one poisoned through it (counters only).
+func countSharedOrigins(res *vlib.Result, w *world) {
+	type pc struct {
+		start  uint64
+		origin int
+	}
+	var calls []pc
+	for _, ms := range w.order {
+		for _, a := range ms.attempts {
+			for _, c := range a.calls {
+				calls = append(calls, pc{c.Start, ms.plan.Handler})
+			}
+		}
+	}
+	sort.Slice(calls, func(i, j int) bool { return calls[i].start < calls[j].start })
+	res.Count("shared_func_cases", 1)
+	res.Count("shared_func_poison_publishes", len(calls))
+	for _, c := range calls {
+		if c.origin != calls[0].origin {
+			res.Count("shared_func_poison_publishes_from_other_origin_than_first", 1)
+		}
+	}
 }
 
 func judgeAttempt(res *vlib.Result, cfg *config, ms *msgState, a *attemptObs, n names) {
 	where := fmt.Sprintf("%s message %q attempt %d (handler error kind %q: %q, filter %s=%v, poison publisher fails=%v)",
 		cfg.Mode, ms.plan.UUID, a.idx, a.plan.ErrKind, a.reason, cfg.Filter, a.accept, a.plan.PubFail)
+	if cfg.Variant != "" {
+		origin := fmt.Sprintf("consumed by handler #%d %q", ms.plan.Handler, n.Handler)
+		if ms.plan.Handler < 0 {
+			origin = "dispatched directly, no Router context"
+		}
+		where += fmt.Sprintf(" [%s, registration %s, %s, foreign context values: %s]", cfg.Variant, cfg.Reg, origin, ctxPlanSig(ms.plan.Ctx))
+	}
 	res.Events++ // handler invocation
 	res.Count("attempts", 1)
 	if a.plan.ErrKind != "" {
@@ -263,6 +310,12 @@ func judgeAttempt(res *vlib.Result, cfg *config, ms *msgState, a *attemptObs, n 
 		res.Fail("settled-before-published", "%s: the consumed message was already %sed while the poison Publish was running", where, s)
 		return
 	}
+	if len(ms.plan.Ctx) > 0 {
+		res.Count("poisoned_with_foreign_ctx_values", 1)
+		if lookalikes(ms.plan.Ctx, cfg.Mode == "router" && ms.plan.Handler >= 0) > 0 {
+			res.Count("poisoned_with_visible_router_spelled_string_keys", 1)
+		}
+	}
 	pubFailed := c.Err != nil
 	if pubFailed {
 		res.Count("poison_publish_failed", 1)
@@ -368,13 +421,23 @@ func describe(res *vlib.Result, w *world, cfg *config) {
 		UUID     string            `json:"uuid"`
 		Metadata map[string]string `json:"metadata"`
 		Handler  int               `json:"handler"`
+		Ctx      []ctxInj          `json:"foreign_ctx_values,omitempty"`
 		Attempts []attemptDesc     `json:"attempts"`
 	}
 	var parts []any
 	parts = append(parts, cfg.Mode, cfg.Filter, cfg.Reg, len(cfg.Handlers))
+	if cfg.Variant != "" {
+		parts = append(parts, cfg.Variant, cfg.CtxValues)
+		for i, h := range cfg.Handlers {
+			parts = append(parts, h.SubKind, h.SubOf != i, i > 0 && h.Topic == cfg.Handlers[0].Topic)
+		}
+	}
 	var sample []msgDesc
 	for i, ms := range w.order {
-		md := msgDesc{UUID: ms.plan.UUID, Metadata: ms.plan.Metadata, Handler: ms.plan.Handler}
+		md := msgDesc{UUID: ms.plan.UUID, Metadata: ms.plan.Metadata, Handler: ms.plan.Handler, Ctx: ms.plan.Ctx}
+		if cfg.Variant != "" {
+			parts = append(parts, ms.plan.Handler, ctxPlanSig(ms.plan.Ctx))
+		}
 		for j, a := range ms.attempts {
 			settled := ""
 			if j < len(ms.copies) {
